@@ -270,7 +270,8 @@ def replay(pid, path):
     P = PROPS[pid]
     first = json.loads(open(path).readline())
     comp = first.get('comp')
-    st = next((s for s in P['stages'] if s.get('comp') == comp), P['stages'][0])
+    runnable = [s for s in P['stages'] if s.get('trace', '-') != '-' and s['kind'] in ('mc', 'gen')]
+    st = next((s for s in runnable if s.get('comp') == comp), None) or next((s for s in runnable if s.get('comp') == '*'), runnable[0])
     j = _judge_cases(pid, pid + '.replay', st, path, nchunks=1)
     mine = _select(pid, j['fails'])
     for f in mine:
